@@ -117,4 +117,12 @@ func TestReplay_MCP(t *testing.T) {
 			verifkit.ReportReplay(rf, out.Failure)
 		}
 	}
+	for _, rf := range verifkit.ReplayFiles("TestProp_C14_MCP") {
+		var c M14Case
+		if err := json.Unmarshal(rf.Case, &c); err != nil {
+			fmt.Printf("REPLAY-ERROR file=%s err=%v\n", rf.Path, err)
+			continue
+		}
+		verifkit.ReportReplay(rf, runM14(c).Failure)
+	}
 }
